@@ -105,6 +105,8 @@ type source struct {
 	off       int    // byte offset of the fault
 	chunk     int    // at most this many bytes per Read
 	ctype     bool
+	errVal    string // plain | wrap_eof | wrap_ueof
+	sticky    bool
 	mu        sync.Mutex
 	pos       int
 	shortDone bool
@@ -120,7 +122,16 @@ func (s *source) Read(p []byte) (int, error) {
 	s.mu.Lock()
 	defer s.mu.Unlock()
 	if s.kind == "err" && s.pos == s.off {
+		if s.hit && !s.sticky {
+			return 0, io.EOF // a non-sticky source: after its failure it just reports the end
+		}
 		s.hit = true
+		switch s.errVal { // the error VALUE must not matter: also values that wrap the end-of-stream sentinels
+		case "wrap_eof":
+			return 0, fmt.Errorf("%w: %w", errSrc, io.EOF)
+		case "wrap_ueof":
+			return 0, fmt.Errorf("%w: %w", errSrc, io.ErrUnexpectedEOF)
+		}
 		return 0, errSrc
 	}
 	if s.pos >= len(s.data) {
@@ -277,6 +288,25 @@ func (b *countingBody) Read(p []byte) (int, error) {
 }
 
 func (b *countingBody) Close() error { b.st.onClose(); return b.rdr.Close() }
+
+// failWriter accepts `room` bytes, then fails.
+type failWriter struct {
+	room   int
+	failed bool
+}
+
+var errDest = errors.New("verif: destination writer failed")
+
+func (w *failWriter) Write(p []byte) (int, error) {
+	if len(p) <= w.room {
+		w.room -= len(p)
+		return len(p), nil
+	}
+	n := w.room
+	w.room = 0
+	w.failed = true
+	return n, errDest
+}
 
 // ---- one call ----------------------------------------------------------------
 
@@ -605,7 +635,8 @@ func runCallOnce(d M) (res M) {
 	soff := drv.List(d["src_off"])
 	for i := 0; i < s.nSources(); i++ {
 		e.sources = append(e.sources, &source{name: fmt.Sprintf("upload%d.bin", i+1), data: fileData(i, drv.Int(flen[i])),
-			kind: s.Src[i].Kind, off: drv.Int(soff[i]), chunk: drv.Int(d["src_chunk"]), ctype: drv.Bool(d["ctype"])})
+			kind: s.Src[i].Kind, off: drv.Int(soff[i]), chunk: drv.Int(d["src_chunk"]), ctype: drv.Bool(d["ctype"]),
+			errVal: drv.Str(d["src_err"]), sticky: !drv.Bool(d["src_nonsticky"])})
 	}
 	e.bufVal = []byte(`{"k":"v"}`)
 
@@ -736,6 +767,16 @@ func runCallOnce(d M) (res M) {
 		switch s.Reader {
 		case "p0":
 			return "ignored", nil
+		case "w1": // copies the body (io.Copy: WriterTo when the body offers it) into a destination that fails after one unit
+			fw := &failWriter{room: unit}
+			_, err := io.Copy(fw, resp.Body())
+			if !fw.failed {
+				e.sawEnd = true // the copy ended because the body did (EOF or its own error)
+			}
+			if err == nil {
+				return "copied", nil
+			}
+			return nil, err
 		case "p1":
 			buf := make([]byte, unit)
 			if _, err := io.ReadFull(resp.Body(), buf); err != nil {
